@@ -108,6 +108,7 @@ var externalsTable = map[string]extEffect{
 	"(reflect.Value).Interface": aliasAll,
 	"(reflect.Value).Kind":      pureFresh,
 	"(reflect.Value).Len":       pureFresh,
+	"(reflect.Value).IsNil":     pureFresh,
 }
 
 func lookupExternal(name string) (extEffect, bool) {
